@@ -396,7 +396,7 @@ def run(tier='quick', seed=0, only=None, verbose=False):
                     scenarios='default c.ivp (+ auto_constants in thorough)'),
         stubs=['f2py replaced by gfortran + ctypes stand-in (harness); DFDU/DFDP assumed zero-initialised by the caller'],
         assumptions=['reals for floats', 'auto-07p itself is not run', 'BCND/ICND DSL: only the slots read by par_<name> tokens are checked (textual)'])
-    progs = fam_auto(seed, 8 if tier == 'quick' else 64)
+    progs = fam_auto(seed, 8 if tier == 'quick' else 160)
     jobs = [dict(key=k, spec=s) for k, s in progs]
     if tier == 'thorough':
         jobs += [dict(key=k + '|scenarios', spec=s, kw=dict(auto_constants=('eq', 'lc'))) for k, s in progs[:8]]
